@@ -1164,6 +1164,7 @@ class RevisionStep(MigrationStep):
 
     def _unmerge_to_revisions(self, heads: Set[str]) -> Tuple[str, ...]:
         other_heads = set(heads).difference([self.revision.revision])
+        to_revisions = set(self.to_revisions)
         if other_heads:
             ancestors = {
                 r.revision
@@ -1171,20 +1172,20 @@ class RevisionStep(MigrationStep):
                     self.revision_map.get_revisions(other_heads), check=False
                 )
             }
-            return tuple(set(self.to_revisions).difference(ancestors))
-        else:
-            # for each revision we plan to return, compute its ancestors
-            # (excluding self), and remove those from the final output since
-            # they are already accounted for.
-            ancestors = {
-                r.revision
-                for to_revision in self.to_revisions
-                for r in self.revision_map._get_ancestor_nodes(
-                    self.revision_map.get_revisions(to_revision), check=False
-                )
-                if r.revision != to_revision
-            }
-            return tuple(set(self.to_revisions).difference(ancestors))
+            to_revisions.difference_update(ancestors)
+
+        # for each revision we plan to return, compute its ancestors
+        # (excluding self), and remove those from the final output since
+        # they are already accounted for.
+        ancestors = {
+            r.revision
+            for to_revision in to_revisions
+            for r in self.revision_map._get_ancestor_nodes(
+                self.revision_map.get_revisions(to_revision), check=False
+            )
+            if r.revision != to_revision
+        }
+        return tuple(to_revisions.difference(ancestors))
 
     def unmerge_branch_idents(
         self, heads: Set[str]
